@@ -484,6 +484,53 @@ fn format_function(
 // * =RC+R1C1
 // * =A1+B1
 
+/// Binding strength of the operator at the root of `node`, loosest first. These are the levels of the grammar
+/// in `parser/mod.rs`: expr (comparison) < concat < term (+ -) < factor (* /) < prod (^) < sign < percent < range.
+pub(crate) fn precedence(node: &Node) -> u8 {
+    match node {
+        Node::CompareKind { .. } => 1,
+        Node::OpConcatenateKind { .. } => 2,
+        Node::OpSumKind { .. } => 3,
+        Node::OpProductKind { .. } => 4,
+        Node::OpPowerKind { .. } => 5,
+        Node::UnaryKind {
+            kind: OpUnary::Minus,
+            ..
+        } => 6,
+        Node::UnaryKind {
+            kind: OpUnary::Percentage,
+            ..
+        } => 7,
+        _ => 8,
+    }
+}
+
+/// Stringifies an operand that the parser reads at level `level`: if the operand binds looser than that it is
+/// wrapped in parentheses, so that parsing the text gives back the same tree.
+fn stringify_operand(
+    node: &Node,
+    level: u8,
+    context: Option<&CellReferenceRC>,
+    displace_data: &DisplaceData,
+    export_to_excel: bool,
+    locale: &Locale,
+    language: &Language,
+) -> String {
+    let s = stringify(
+        node,
+        context,
+        displace_data,
+        export_to_excel,
+        locale,
+        language,
+    );
+    if precedence(node) < level {
+        format!("({s})")
+    } else {
+        s
+    }
+}
+
 fn stringify(
     node: &Node,
     context: Option<&CellReferenceRC>,
@@ -570,7 +617,9 @@ fn stringify(
             let full_column = *absolute_column1
                 && *absolute_column2
                 && (*column1 == 1)
-                && (*column2 == LAST_COLUMN);
+                && (*column2 == LAST_COLUMN)
+                // the whole sheet is written as a column range ($A:$XFD), not as `:`
+                && !full_row;
             let s1 = stringify_reference(
                 context,
                 displace_data,
@@ -619,7 +668,9 @@ fn stringify(
             let full_column = *absolute_column1
                 && *absolute_column2
                 && (*column1 == 1)
-                && (*column2 == LAST_COLUMN);
+                && (*column2 == LAST_COLUMN)
+                // the whole sheet is written as a column range ($A:$XFD), not as `:`
+                && !full_row;
             let s1 = stringify_reference(
                 context,
                 &DisplaceData::None,
@@ -669,142 +720,44 @@ fn stringify(
                 language
             )
         ),
+        // Binary operators are left associative: the left operand may sit at the operator's own level, the right
+        // operand has to bind tighter. Anything looser goes in parentheses (see `precedence`).
         OpConcatenateKind { left, right } => format!(
             "{}&{}",
-            stringify(
-                left,
-                context,
-                displace_data,
-                export_to_excel,
-                locale,
-                language
-            ),
-            stringify(
-                right,
-                context,
-                displace_data,
-                export_to_excel,
-                locale,
-                language
-            )
+            stringify_operand(left, 2, context, displace_data, export_to_excel, locale, language),
+            stringify_operand(right, 3, context, displace_data, export_to_excel, locale, language)
         ),
         CompareKind { kind, left, right } => format!(
             "{}{}{}",
-            stringify(
-                left,
-                context,
-                displace_data,
-                export_to_excel,
-                locale,
-                language
-            ),
+            stringify_operand(left, 1, context, displace_data, export_to_excel, locale, language),
             kind,
-            stringify(
-                right,
-                context,
-                displace_data,
-                export_to_excel,
-                locale,
-                language
-            )
+            stringify_operand(right, 2, context, displace_data, export_to_excel, locale, language)
         ),
         OpSumKind { kind, left, right } => {
-            // CompareKind has lower precedence than +/-, so wrap it to preserve semantics
-            let left_str = if matches!(**left, CompareKind { .. }) {
-                format!(
-                    "({})",
-                    stringify(
-                        left,
-                        context,
-                        displace_data,
-                        export_to_excel,
-                        locale,
-                        language
-                    )
-                )
-            } else {
-                stringify(
-                    left,
-                    context,
-                    displace_data,
-                    export_to_excel,
-                    locale,
-                    language,
-                )
-            };
-            // if kind is minus then we need parentheses in the right side if they are OpSumKind or CompareKind
-            let right_str = if (matches!(kind, OpSum::Minus) && matches!(**right, OpSumKind { .. }))
-                | matches!(**right, CompareKind { .. })
-            {
-                format!(
-                    "({})",
-                    stringify(
-                        right,
-                        context,
-                        displace_data,
-                        export_to_excel,
-                        locale,
-                        language
-                    )
-                )
-            } else {
-                stringify(
+            // `a+(b+c)` and `a+(b-c)` are printed without the parentheses (addition is taken to be associative);
+            // after a minus sign the right operand keeps them.
+            let right_level = if matches!(kind, OpSum::Minus) { 4 } else { 3 };
+            format!(
+                "{}{}{}",
+                stringify_operand(left, 3, context, displace_data, export_to_excel, locale, language),
+                kind,
+                stringify_operand(
                     right,
+                    right_level,
                     context,
                     displace_data,
                     export_to_excel,
                     locale,
-                    language,
+                    language
                 )
-            };
-
-            format!("{left_str}{kind}{right_str}")
+            )
         }
-        OpProductKind { kind, left, right } => {
-            let x = match **left {
-                OpSumKind { .. } | CompareKind { .. } => format!(
-                    "({})",
-                    stringify(
-                        left,
-                        context,
-                        displace_data,
-                        export_to_excel,
-                        locale,
-                        language
-                    )
-                ),
-                _ => stringify(
-                    left,
-                    context,
-                    displace_data,
-                    export_to_excel,
-                    locale,
-                    language,
-                ),
-            };
-            let y = match **right {
-                OpSumKind { .. } | CompareKind { .. } | OpProductKind { .. } => format!(
-                    "({})",
-                    stringify(
-                        right,
-                        context,
-                        displace_data,
-                        export_to_excel,
-                        locale,
-                        language
-                    )
-                ),
-                _ => stringify(
-                    right,
-                    context,
-                    displace_data,
-                    export_to_excel,
-                    locale,
-                    language,
-                ),
-            };
-            format!("{x}{kind}{y}")
-        }
+        OpProductKind { kind, left, right } => format!(
+            "{}{}{}",
+            stringify_operand(left, 4, context, displace_data, export_to_excel, locale, language),
+            kind,
+            stringify_operand(right, 5, context, displace_data, export_to_excel, locale, language)
+        ),
         OpPowerKind { left, right } => {
             let x = match **left {
                 BooleanKind(_)
@@ -931,7 +884,7 @@ fn stringify(
             let row_separator = if locale.numbers.symbols.decimal == "." {
                 ';'
             } else {
-                '/'
+                '\\'
             };
             let col_separator = if row_separator == ';' { ',' } else { ';' };
 
@@ -959,76 +912,18 @@ fn stringify(
         DefinedNameKind((name, ..)) => name.to_string(),
         NamedVariableKind { name, id: _ } => name.to_string(),
         UnaryKind { kind, right } => match kind {
-            OpUnary::Minus => {
-                let needs_parentheses = match **right {
-                    BooleanKind(_)
-                    | NumberKind(_)
-                    | StringKind(_)
-                    | ReferenceKind { .. }
-                    | RangeKind { .. }
-                    | WrongReferenceKind { .. }
-                    | WrongRangeKind { .. }
-                    | OpRangeKind { .. }
-                    | OpConcatenateKind { .. }
-                    | OpProductKind { .. }
-                    | FunctionKind { .. }
-                    | NamedFunctionKind { .. }
-                    | LambdaDefKind { .. }
-                    | LambdaCallKind { .. }
-                    | ArrayKind(_)
-                    | DefinedNameKind(_)
-                    | TableNameKind(_)
-                    | NamedVariableKind { .. }
-                    | ImplicitIntersection { .. }
-                    | SpillRangeOperator { .. }
-                    | CompareKind { .. }
-                    | ErrorKind(_)
-                    | ParseErrorKind { .. }
-                    | EmptyArgKind => false,
-
-                    OpPowerKind { .. } | OpSumKind { .. } | UnaryKind { .. } => true,
-                };
-                if needs_parentheses {
-                    format!(
-                        "-({})",
-                        stringify(
-                            right,
-                            context,
-                            displace_data,
-                            export_to_excel,
-                            locale,
-                            language
-                        )
-                    )
-                } else {
-                    format!(
-                        "-{}",
-                        stringify(
-                            right,
-                            context,
-                            displace_data,
-                            export_to_excel,
-                            locale,
-                            language
-                        )
-                    )
-                }
-            }
-            OpUnary::Percentage => {
-                format!(
-                    "{}%",
-                    stringify(
-                        right,
-                        context,
-                        displace_data,
-                        export_to_excel,
-                        locale,
-                        language
-                    )
-                )
-            }
+            // the operand of a sign is read at the range level: every operator below it needs parentheses
+            OpUnary::Minus => format!(
+                "-{}",
+                stringify_operand(right, 8, context, displace_data, export_to_excel, locale, language)
+            ),
+            // `%` applies to a (signed) range-level operand or to another `%`
+            OpUnary::Percentage => format!(
+                "{}%",
+                stringify_operand(right, 6, context, displace_data, export_to_excel, locale, language)
+            ),
         },
-        ErrorKind(kind) => format!("{kind}"),
+        ErrorKind(kind) => kind.to_localized_error_string(language),
         ParseErrorKind { formula, .. } => formula.to_string(),
         EmptyArgKind => "".to_string(),
         SpillRangeOperator { child } => {
